@@ -36,7 +36,8 @@ DOC = "<r a='1'>t<!--c--><e/><?p?></r>"
 PROBES = [("count(/r/*)", "1"), ("count(//*)", "2"), ("count(/r/text()/self::*)", "0"), ("count(/r/e/ancestor::*)", "1"),
           ("count(/r/descendant-or-self::*)", "2"), ("count(/r/e/preceding-sibling::*)", "0"), ("count(/r/@*)", "1"),
           ("count(/r/node())", "4"), ("count(/r/text())", "1"), ("count(/r/comment())", "1"), ("count(/r/processing-instruction())", "1"),
-          ("count(/r/processing-instruction('p'))", "1"), ("count(/r/processing-instruction('q'))", "0"), ("count(/r/@a/self::*)", "0"),
+          ("count(/r/processing-instruction('p'))", "1"), ("count(/r/processing-instruction('q'))", "0"), ("count(/r/processing-instruction('e'))", "0"),
+          ("count(/r/attribute::processing-instruction('a'))", "0"), ("count(/r/@a/self::*)", "0"),
           ("count(/r/namespace::*)", "1"), ("count(/r/attribute::*)", "1"), ("count(/r/child::e)", "1"), ("count(/r/@a/self::a)", "0"),
           ("count(//text()/ancestor::*)", "1"), ("count(/r/e/following-sibling::*)", "0")]
 
@@ -81,6 +82,9 @@ def work(job):
             I.stubs[a] = lambda I, n: SVec([holder["cand"]])
         I.stubs["equal_qname"] = lambda I, q, n, c: Ok(names_equal)
         I.mstubs = {("InfoStub", "target"): lambda I, r: r.fields["target"],
+                    # every named kind carries the same symbolic name, so a test that forgets the node type can be fooled
+                    ("InfoStub", "local_name"): lambda I, r: r.fields["target"], ("InfoStub", "name"): lambda I, r: r.fields["target"],
+                    ("InfoStub", "prefix"): lambda I, r: Some(r.fields["target"]),
                     ("CtxNode", "parent_node"): lambda I, r: Some(holder["cand"]),
                     ("XmlNode", "order"): lambda I, r: 1}
 
